@@ -685,7 +685,7 @@ func (il *inliner) expansion(call *ast.CallExpr, c *candidate, recv string) (str
 		}
 		tmp := fmt.Sprintf("%s_a%d", p, k)
 		k++
-		fmt.Fprintf(&b, "var %s %s = %s\n_ = %s\n", tmp, c.text(rf.Type), recv, tmp)
+		fmt.Fprintf(&b, "%s := %s\n_ = %s\n", tmp, recv, tmp) // the receiver expression has the receiver's type already (no type name: a local may shadow it)
 		binds = append(binds, bind{tmp, name})
 	}
 	for i, pr := range params {
@@ -807,7 +807,18 @@ func (il *inliner) expansion(call *ast.CallExpr, c *candidate, recv string) (str
 					vals = append(vals, c.text(e))
 				}
 			}
-			fmt.Fprintf(&rb, "%s = %s", strings.Join(rnames, ", "), strings.Join(vals, ", "))
+			if len(vals) == len(rnames) && len(vals) > 1 {
+				// one assignment per result (the result variables occur in no operand, so this is the
+				// parallel assignment; single statements are what the second stage reads)
+				for k := range vals {
+					if k > 0 {
+						rb.WriteString("; ")
+					}
+					fmt.Fprintf(&rb, "%s = %s", rnames[k], vals[k])
+				}
+			} else {
+				fmt.Fprintf(&rb, "%s = %s", strings.Join(rnames, ", "), strings.Join(vals, ", "))
+			}
 		}
 		if dc := deferredAt(rt.Pos()); dc != "" {
 			if len(results) == 0 {
@@ -1039,7 +1050,7 @@ func (il *inliner) tailSplice(body *ast.BlockStmt) bool {
 		rf := c.fd.Recv.List[0]
 		tmp := fmt.Sprintf("%s_a%d", p, k)
 		k++
-		fmt.Fprintf(&b, "var %s %s = %s\n_ = %s\n", tmp, c.text(rf.Type), recv, tmp)
+		fmt.Fprintf(&b, "%s := %s\n_ = %s\n", tmp, recv, tmp) // the receiver expression has the receiver's type already (no type name: a local may shadow it)
 		if len(rf.Names) > 0 && rf.Names[0].Name != "_" {
 			ln, rn = append(ln, rf.Names[0].Name), append(rn, tmp)
 		}
@@ -1125,6 +1136,53 @@ func (il *inliner) wrapCall(call *ast.CallExpr) bool {
 	return true
 }
 
+// wrapDefer rewrites `defer h(args)` / `defer x.h(args)` for a new helper h into
+//
+//	a0 := x; var a1 T1 = arg1; …          (operands evaluated at the defer statement, as before)
+//	defer func() { (func(recv, params) { body })(a0, a1, …) }()
+//
+// so that the receiver is bound to the parameter of a literal that is called on the spot (the
+// form the second stage can turn back into local variables) instead of being passed through the
+// deferred call itself.
+func (il *inliner) wrapDefer(x *ast.DeferStmt, anchor, wrapEnd token.Pos) bool {
+	if wrapEnd.IsValid() || !anchor.IsValid() {
+		return false
+	}
+	call := x.Call
+	il.anyCandidate = true
+	c, recv, ok := il.calleeOf(call)
+	il.anyCandidate = false
+	if !ok || c.obj == il.encl || !il.visibleAt(c, call.Pos()) || call.Ellipsis.IsValid() {
+		return false
+	}
+	params := c.fields(c.fd.Type.Params)
+	if len(params) != len(call.Args) {
+		return false
+	}
+	il.n++
+	p := fmt.Sprintf("_inl%d_%d", il.round, il.n)
+	var pre strings.Builder
+	var args []string
+	k := 0
+	if c.fd.Recv != nil {
+		tmp := fmt.Sprintf("%s_a%d", p, k)
+		k++
+		fmt.Fprintf(&pre, "%s := %s\n_ = %s\n", tmp, recv, tmp)
+		args = append(args, tmp)
+	}
+	for i, pr := range params {
+		tmp := fmt.Sprintf("%s_a%d", p, k)
+		k++
+		fmt.Fprintf(&pre, "var %s %s = %s\n_ = %s\n", tmp, pr.typ, il.text(call.Args[i]), tmp)
+		args = append(args, tmp)
+	}
+	il.edits = append(il.edits, edit{il.off(anchor), il.off(anchor), pre.String()})
+	il.edits = append(il.edits, edit{il.off(call.Pos()), il.off(call.End()), "func() { (" + il.litText(c, true, "") + ")(" + strings.Join(args, ", ") + ") }()"})
+	il.sites++
+	il.helpers[c.obj.FullName()] = true
+	return true
+}
+
 // valueRefs replaces references to a new helper used as a VALUE (passed, stored, returned — not
 // called) by a function literal with the helper's signature and body; for a method value the
 // receiver operand must be a pure expression and is bound inside the literal.
@@ -1201,14 +1259,61 @@ func (il *inliner) valueRefs(body *ast.BlockStmt) bool {
 // in front of statement s. It returns true if an edit was made.
 func (il *inliner) tryHoist(s ast.Stmt, anchor token.Pos, wrapEnd token.Pos, exprs []ast.Expr, pre string) bool {
 	var call *ast.CallExpr
-	for _, e := range exprs {
+	type bound struct {
+		e   ast.Expr
+		tmp string
+	}
+	var binds []bound
+	// operands in evaluation order: a call of some other function (plain name or selector) stands
+	// for its arguments followed by the call itself; only return values and right-hand sides are opened up
+	whole := map[ast.Expr]bool{}
+	if il.operandsOpen(s) {
+		var flat []ast.Expr
+		var open func(e ast.Expr, depth int)
+		open = func(e ast.Expr, depth int) {
+			if ce, isCall := unparen(e).(*ast.CallExpr); isCall && depth < 3 && !ce.Ellipsis.IsValid() {
+				if _, _, isCand := il.calleeOf(ce); !isCand && il.plainFun(ce.Fun) && il.holdsCandidate(ce) {
+					for _, a := range ce.Args {
+						open(a, depth+1)
+					}
+					return
+				}
+			}
+			whole[e] = true
+			flat = append(flat, e)
+		}
+		for _, e := range exprs {
+			if il.isRHS(s, e) {
+				open(e, 0)
+			} else {
+				flat = append(flat, e)
+			}
+		}
+		exprs = flat
+	}
+	for i, e := range exprs {
 		c, stop := il.firstCall(e)
 		if c != nil {
-			call = c
-			break
+			if _, _, isCand := il.calleeOf(c); isCand || !whole[e] || !il.laterCandidate(exprs[i+1:]) {
+				call = c
+				break
+			}
+			stop = true // the first call evaluated is some other function's: as below
 		}
 		if stop {
-			return false
+			// an operand that has to be evaluated before the candidate call: when it is a whole result
+			// of a return statement (or a whole right-hand side) and a later operand holds a candidate
+			// call, it is evaluated into a temporary first — the order of evaluation stays as it was
+			if !whole[e] || !il.laterCandidate(exprs[i+1:]) {
+				return false
+			}
+			if tv, okT := il.pkg.TypesInfo.Types[e]; !okT || tv.Type == nil || tv.Value != nil {
+				return false
+			} else if _, isTuple := tv.Type.(*types.Tuple); isTuple {
+				return false
+			}
+			il.n++
+			binds = append(binds, bound{e, fmt.Sprintf("_inl%d_%d_a0", il.round, il.n)})
 		}
 	}
 	if call == nil {
@@ -1217,6 +1322,9 @@ func (il *inliner) tryHoist(s ast.Stmt, anchor token.Pos, wrapEnd token.Pos, exp
 	c, recv, ok := il.calleeOf(call)
 	if !ok {
 		return false
+	}
+	for _, b := range binds {
+		pre += b.tmp + " := " + il.text(b.e) + "\n_ = " + b.tmp + "\n"
 	}
 	name := c.obj.FullName()
 	if c.obj == il.encl || !il.visibleAt(c, call.Pos()) {
@@ -1246,9 +1354,108 @@ func (il *inliner) tryHoist(s ast.Stmt, anchor token.Pos, wrapEnd token.Pos, exp
 			il.edits = append(il.edits, edit{il.off(wrapEnd), il.off(wrapEnd), close})
 		}
 	}
+	for _, b := range binds {
+		il.edits = append(il.edits, edit{il.off(b.e.Pos()), il.off(b.e.End()), b.tmp})
+	}
 	il.sites++
 	il.helpers[name] = true
 	return true
+}
+
+// operandsOpen: s is a return statement, an assignment or an expression statement.
+func (il *inliner) operandsOpen(s ast.Stmt) bool {
+	switch s.(type) {
+	case *ast.ReturnStmt, *ast.AssignStmt, *ast.ExprStmt:
+		return true
+	}
+	return false
+}
+
+// isRHS: e is a result of return statement s, a right-hand side of assignment s, or the
+// expression of expression statement s.
+func (il *inliner) isRHS(s ast.Stmt, e ast.Expr) bool {
+	switch x := s.(type) {
+	case *ast.ReturnStmt:
+		for _, r := range x.Results {
+			if r == e {
+				return true
+			}
+		}
+	case *ast.AssignStmt:
+		for _, r := range x.Rhs {
+			if r == e {
+				return true
+			}
+		}
+	case *ast.ExprStmt:
+		return x.X == e
+	}
+	return false
+}
+
+func unparen(e ast.Expr) ast.Expr {
+	for {
+		p, ok := e.(*ast.ParenExpr)
+		if !ok {
+			return e
+		}
+		e = p.X
+	}
+}
+
+// plainFun: the function operand of a call is a name or a selector chain of names (nothing is
+// evaluated to find the function), and it is not a type (a conversion).
+func (il *inliner) plainFun(f ast.Expr) bool {
+	if tv, ok := il.pkg.TypesInfo.Types[f]; ok && tv.IsType() {
+		return false
+	}
+	switch x := f.(type) {
+	case *ast.Ident:
+		return true
+	case *ast.SelectorExpr:
+		for {
+			switch y := x.X.(type) {
+			case *ast.Ident:
+				return true
+			case *ast.SelectorExpr:
+				x = y
+				continue
+			}
+			return false
+		}
+	}
+	return false
+}
+
+// holdsCandidate: some argument of ce (at any depth) is or contains a call of a new helper.
+func (il *inliner) holdsCandidate(ce *ast.CallExpr) bool {
+	found := false
+	for _, a := range ce.Args {
+		ast.Inspect(a, func(n ast.Node) bool {
+			if c, ok := n.(*ast.CallExpr); ok {
+				if _, _, isCand := il.calleeOf(c); isCand {
+					found = true
+				}
+			}
+			if _, isLit := n.(*ast.FuncLit); isLit {
+				return false
+			}
+			return !found
+		})
+	}
+	return found
+}
+
+// laterCandidate: one of exprs holds (as its first-evaluated call) a call of a new helper.
+func (il *inliner) laterCandidate(exprs []ast.Expr) bool {
+	for _, e := range exprs {
+		if c, _ := il.firstCall(e); c != nil {
+			if _, _, ok := il.calleeOf(c); ok {
+				return true
+			}
+		}
+	}
+	return false
 }
 
 // stmts processes one statement list.
@@ -1340,7 +1547,7 @@ func (il *inliner) stmt(s ast.Stmt, anchor token.Pos, wrapEnd token.Pos) {
 		}
 		return
 	case *ast.DeferStmt:
-		if !il.wrapCall(x.Call) {
+		if !il.wrapDefer(x, anchor, wrapEnd) && !il.wrapCall(x.Call) {
 			il.funcLits(s)
 		}
 		return
@@ -1724,4 +1931,74 @@ func dumpFuncs(repo string) {
 		}
 		prev = k
 	}
+}
+
+// unshadowRound: a local variable (or parameter) that carries the name of a NEW package-level
+// type of its package ("consent := u.readConsent()" next to "type consent struct{…}") hides the
+// type name exactly where the expansion of that type's methods has to write it. Such locals are
+// renamed (name + "_v", every occurrence) before the first round; renaming a local changes nothing.
+func unshadowRound(pkgs []*packages.Package, dir string, overlay map[string][]byte) (changed bool, notes []string) {
+	for _, p := range pkgs {
+		if len(p.Syntax) == 0 || p.Types == nil || p.TypesInfo == nil || len(p.CompiledGoFiles) != len(p.Syntax) {
+			continue
+		}
+		newTypes := map[string]bool{}
+		for _, n := range p.Types.Scope().Names() {
+			if tn, ok := p.Types.Scope().Lookup(n).(*types.TypeName); ok && !baselineFuncs["type:"+p.PkgPath+"."+n] {
+				_ = tn
+				newTypes[n] = true
+			}
+		}
+		if len(newTypes) == 0 {
+			continue
+		}
+		for i, f := range p.Syntax {
+			name := p.CompiledGoFiles[i]
+			if !strings.HasPrefix(name, dir+string(filepath.Separator)) || !strings.HasSuffix(name, ".go") {
+				continue
+			}
+			tf := p.Fset.File(f.Pos())
+			var edits []edit
+			renamed := map[types.Object]bool{}
+			ast.Inspect(f, func(n ast.Node) bool {
+				id, ok := n.(*ast.Ident)
+				if !ok || !newTypes[id.Name] {
+					return true
+				}
+				obj := p.TypesInfo.Defs[id]
+				if obj == nil {
+					obj = p.TypesInfo.Uses[id]
+				}
+				v, isVar := obj.(*types.Var)
+				if !isVar || v.IsField() || v.Parent() == nil || v.Parent() == p.Types.Scope() || v.Pkg() != p.Types {
+					return true
+				}
+				// the new name must be free in the package and the universe (locals are checked by the type check that follows)
+				if p.Types.Scope().Lookup(id.Name+"_v") != nil {
+					return true
+				}
+				edits = append(edits, edit{tf.Offset(id.Pos()), tf.Offset(id.End()), id.Name + "_v"})
+				renamed[obj] = true
+				return true
+			})
+			if len(edits) == 0 {
+				continue
+			}
+			src, ok := overlay[name]
+			if !ok {
+				src, _ = os.ReadFile(name)
+			}
+			out, ok := applyEdits(src, edits)
+			if !ok {
+				continue
+			}
+			overlay[name] = out
+			changed = true
+			for o := range renamed {
+				notes = append(notes, o.Name()+" in "+filepath.Base(name))
+			}
+		}
+	}
+	sort.Strings(notes)
+	return changed, notes
 }
